@@ -132,7 +132,11 @@ def run(ctx):
         d = xa.msgfield("direction")
         bad = None
         seen = set()
-        for q in xa.ok_paths():
+        def limit_helper(e):
+            # a helper the limit comparison was moved into: takes the limit and the priced amount, returns a Result
+            t_ = e.target
+            return t_.crate == VAMM and "Result" in t_.locals[0]["ty"] and t_.pretty not in xt and any(xa.s(a) == lim for a in e.args)
+        for q in splice(ix, xa.ok_paths(), limit_helper):
             pc = [e for e in q.events if e.target is not None and e.target.pretty in xt]
             if not pc:
                 continue
